@@ -18,7 +18,8 @@ EXPLANATION = (
     'rejects a mismatch with #VALUE!; (C14.4) COUNT counts by Number.is_type, COUNTA by not Blank.is_blank, over the flattened '
     'arguments; (C14.5) the array handed to the aggregates is rebuilt from the cells on every evaluation (shares C04.1).'
     ' (C14.6) the aggregates as the evaluator calls them - the registered object, i.e. validate_args as written (casts, TYPE_TO_CAST, typing constructs) and then the body, with the real class predicates - on witness argument lists: blanks and texts take no part, a stored 0 does, arrays are flattened.'
-    ' (C14.7) a witness workbook: SUM over every split and order of the same cells, AVERAGE/MIN/MAX/COUNT/COUNTA with a zero, an empty cell and a text, SUMPRODUCT, whole numbers around 2^63, formula members, and a history of edits.')
+    ' (C14.7) a witness workbook: SUM over every split and order of the same cells, AVERAGE/MIN/MAX/COUNT/COUNTA with a zero, an empty cell and a text, SUMPRODUCT, whole numbers around 2^63, formula members, and a history of edits.'
+    ' (C14.7) also blank-tailed ranges under SUMPRODUCT, ranges of another sheet next to unqualified ones, booleans next to equal numbers read in four orders, the same formula text on two sheets.')
 NOT_DECIDED = 'the sums themselves, permutation invariance, additivity, MIN<=AVERAGE<=MAX (numeric)'
 TRUSTED = ['Number.is_type = isinstance of Number or a native number', 'workbook scenarios: pandas storage of range arrays as row-major rows, numpy on Python numbers (IEEE results, 64-bit integer wrap), dateutil.parser.parse rejecting texts that are no dates, openpyxl address arithmetic, inspect.signature built from the FunctionDef', 'pandas.concat(axis=1).prod(axis=1).sum() as row products summed']
 
